@@ -273,7 +273,7 @@ def rule_compiler_of_this_call(check):
     prog = check.prog
     rj = prog.fn("rewriter::rewrite_js")
     pv = Prov(prog)
-    sites = [(rj, n) for n in hir.calls_in(rj.body) if hir.callee_name(n) in ("parse_js", "transform_js") and prog.resolve_local(n) is not None]
+    sites = [(g_, n) for g_ in prog.flat(rj, 1) for n in hir.calls_in(g_.body) if hir.callee_name(n) in ("parse_js", "transform_js") and prog.resolve_local(n) is not None and g_.name not in ("parse_js", "transform_js")]
     check.floor(R, "parse/transform calls in rewrite_js", len(sites), 2)
     for g, n in sites:
         tgt = prog.resolve_local(n)
